@@ -86,7 +86,8 @@ LOAD_EXT = [
     ("{t.name: t for t in _0}", "{0}", "List String", True, ["List String"]),
     ("_0.get(_1)", "(Py.Load.termGet {0} {1})", "Option String", True, ["List String", "String"]),
 ]
-LOAD_FIELDS = {(PROP, "variable"): "Op.VarInfo", (PROP, "hedges"): "List String", (PROP, "term"): "Option String"}
+LOAD_FIELDS = {(PROP, "variable"): "Op.VarInfo", (PROP, "hedges"): "List String", (PROP, "term"): "Option String",
+               ("Py.Load.Operator", "left"): "Py.Load.Expression", ("Py.Load.Operator", "right"): "Py.Load.Expression"}
 LOAD_TRUTHY = {"Option Op.VarInfo": "(Py.Load.varTruthy {0})"}
 # ---- end loaders
 
@@ -128,6 +129,26 @@ PROFILES = [
         "externals": LOAD_EXT,
         "stmt_externals": [("self.unload()", "{{ σ with self_conclusions := [] }}", True),
                            ("factory = settings.factory_manager.hedge", "σ", True)],
+    },
+    {
+        # the callee `Function.infix_to_postfix` is the parameter `post` (its own tie is `infix_to_postfix`)
+        "name": "Antecedent_load", "module": "fuzzylite.rule", "object": "Antecedent.load", "file": "CodeLoad",
+        "params": [("e", "Op.EngineInfo"), ("post", "String → Py.M String"), ("text", "String")],
+        "locals": {"postfix": "String", "state": "Nat", "stack": "Stack Py.Load.Expression", "variables": "List Op.VarInfo",
+                   "token": "String", "variable": "Option Op.VarInfo", "hedge": "String", "terms": "List String",
+                   "term": "Option String", "operator": "Py.Load.Operator", "self_expression": "Py.Load.Expression"},
+        "alias_last": {"proposition": {"list": "stack", "type": PROP, "embed": "(Py.Load.Expression.prop {0})",
+                                       "view": "(Py.Load.Expression.asProp {0})"}},
+        "record_fields": LOAD_FIELDS, "truthy": LOAD_TRUTHY, "none_init": ["token"],
+        "skip_stmts": ["settings.logger.debug(_0)"],
+        "externals": LOAD_EXT + [("Function.infix_to_postfix(_0)", "(post {0})", "String", False, ["String"]),
+                                 ("deque()", "[]", "List Py.Load.Expression", True),
+                                 ("isinstance(_0, Any)", '({0} == "any")', "Bool", True, ["String"]),
+                                 ("Operator(_0)", "({{ name := {0} }} : Py.Load.Operator)", "Py.Load.Operator", True, ["String"]),
+                                 ("operator", "(Py.Load.Expression.ofOp σ.operator)", "Py.Load.Expression", True)],
+        "stmt_externals": [("self.unload()", "{{ σ with self_expression := Py.Load.Expression.none }}", True),
+                           ("factory = settings.factory_manager.hedge", "σ", True),
+                           ("errors = ' '.join((str(element) for element in stack))", "σ", True)],
     },
     # ---- end loaders
     act("General"),
